@@ -844,6 +844,7 @@ pub fn c09(cx: &Cx) -> i32 {
     rep.floor("operator x base-kind configurations analysed on impl items", all_ops_seen, 20);
     crate::misc::impl_helpers_rule(cx, &mut rep);
     crate::misc::impl_args_rule(cx, &mut rep);
+    crate::misc::output_type_rule(cx, &mut rep);
     rep.assumptions = vec!["what the user's impl computes is not analysed; the analysis fixes that every generated form forwards once, in order, with the documented clone / reborrow adapters".into(), "operator name tables are checked by DM-op-tables (shared with C08)".into()];
     rep.finish("other", "static analysis: the builder for `impl` items is evaluated over base kind (Op / OpAssign) x base form (lhs by ref, rhs by ref) x requested set; the list of generated impls, their headers, Output, generics and the single forwarding call with its operand adapters are compared with the documented forwarding rules; change_owned, the reference-form detection and the Rhs default are checked as decision models", "rule instances = (rule, operator, configuration, generated impl)")
 }
